@@ -4,13 +4,13 @@ namespace Mpir.Cxx
 
 /-! ### comparisons, `cmp`, `sgn` on mpz-typed operands -/
 
-def Opnd.zOk (K : Nat) : Opnd → Prop
-  | .ex e => e.ty = .z ∧ e.wt = true ∧ e.zbelow K
+def Opnd.zOk (K : Nat) (h : Heap) : Opnd → Prop
+  | .ex e => e.ty = .z ∧ e.wt = true ∧ e.zbelow K ∧ e.canon h
   | .bi c => c.ok = true
 
-theorem opndRat_ex_z (h : Heap) (e : E) (hty : e.ty = .z) :
-    opndRat h.abs (.ex e) = (evalTmpZ (fun i => h (.v i)) e).map fun x => ((x : Int) : Rat) := by
-  simp only [opndRat, evalTmp_z _ e hty, Option.map_map]
+theorem opndRat_ex_z (h : Heap) (e : E) (hty : e.ty = .z) (hc : e.canon h) :
+    opndRat h.abs (.ex e) = (evalTmpZ h.get e).map fun x => ((x : Int) : Rat) := by
+  simp only [opndRat, evalTmp_z h e hty hc, Option.map_map]
   rfl
 
 /-- Comparisons equal the C comparison of the temporaries (`== != < <= > >=`, `cmp`; `_partial`: mpz-typed
@@ -20,27 +20,27 @@ theorem opndRat_ex_z (h : Heap) (e : E) (hty : e.ty = .z) :
     `__gmp_binary_equal/less/greater/__gmp_cmp_function` overload gives exactly
     `execTmp (.cmp o a b)`, including raising when an operand raises. -/
 theorem execCmpZ_correct (cst : Bool) (K : Nat) (o : Cmp) (a b : Opnd) (h : Heap)
-    (ha : a.zOk K) (hb : b.zOk K) (hab : ¬(∃ c c', a = .bi c ∧ b = .bi c')) :
+    (ha : a.zOk K h) (hb : b.zOk K h) (hab : ¬(∃ c c', a = .bi c ∧ b = .bi c')) :
     (execCmpZ cst K o a b h).map Res.int = execTmp h.abs (.cmp o a b) := by
   have B := bindZ_correct cst (evalZ_correct cst)
   cases a with
   | ex ea =>
-    obtain ⟨hta, hwa, hba⟩ := ha
+    obtain ⟨hta, hwa, hba, hca⟩ := ha
     have Ba := B ea hta hwa K h hba
     cases b with
     | ex eb =>
-      obtain ⟨htb, hwb, hbb⟩ := hb
-      simp only [execCmpZ, execTmp, opndRat_ex_z h ea hta, opndRat_ex_z h eb htb]
-      cases hra : evalTmpZ (fun i => h (.v i)) ea with
+      obtain ⟨htb, hwb, hbb, hcb⟩ := hb
+      simp only [execCmpZ, execTmp, opndRat_ex_z h ea hta hca, opndRat_ex_z h eb htb hcb]
+      cases hra : evalTmpZ h.get ea with
       | none => rw [hra] at Ba; simp [Ba]
       | some x =>
         rw [hra] at Ba
         obtain ⟨la, h1, e1, hx, hla, hfr1⟩ := Ba
-        have hag : ∀ i, i < K → h1 (.v i) = h (.v i) := fun i hi => hfr1 _ (by simpa [ZLoc.below] using hi)
+        have hag : ∀ l : ZLoc, l.below K → h1 l = h l := fun l hl => hfr1 l hl
         have Bb := B eb htb hwb (K + 1) h1 (E.zbelow_mono (by omega) _ hbb)
         rw [evalTmpZ_frame (k := K) hag eb hbb] at Bb
         simp only [e1, Option.bind_some]
-        cases hrb : evalTmpZ (fun i => h (.v i)) eb with
+        cases hrb : evalTmpZ h.get eb with
         | none => rw [hrb] at Bb; simp [Bb]
         | some y =>
           rw [hrb] at Bb
@@ -49,9 +49,9 @@ theorem execCmpZ_correct (cst : Bool) (K : Nat) (o : Cmp) (a b : Opnd) (h : Heap
           rw [fnCmpZ_spec o _ _ h2 (by simp [ZArg.isBi])]
           simp [argQ, hy, hfr2 la hla, hx]
     | bi c =>
-      simp only [execCmpZ, execTmp, opndRat_ex_z h ea hta]
+      simp only [execCmpZ, execTmp, opndRat_ex_z h ea hta hca]
       simp only [opndRat]
-      cases hra : evalTmpZ (fun i => h (.v i)) ea with
+      cases hra : evalTmpZ h.get ea with
       | none => rw [hra] at Ba; simp [Ba]
       | some x =>
         rw [hra] at Ba
@@ -64,11 +64,11 @@ theorem execCmpZ_correct (cst : Bool) (K : Nat) (o : Cmp) (a b : Opnd) (h : Heap
     cases b with
     | bi c' => exact absurd ⟨c, c', rfl, rfl⟩ hab
     | ex eb =>
-      obtain ⟨htb, hwb, hbb⟩ := hb
+      obtain ⟨htb, hwb, hbb, hcb⟩ := hb
       have Bb := B eb htb hwb K h hbb
-      simp only [execCmpZ, execTmp, opndRat_ex_z h eb htb]
+      simp only [execCmpZ, execTmp, opndRat_ex_z h eb htb hcb]
       simp only [opndRat]
-      cases hrb : evalTmpZ (fun i => h (.v i)) eb with
+      cases hrb : evalTmpZ h.get eb with
       | none => rw [hrb] at Bb; simp only [Bb]; cases biRat c <;> simp
       | some y =>
         rw [hrb] at Bb
@@ -209,10 +209,10 @@ theorem execSgn_correct (cst : Bool) (K : Nat) (a : E) (h : Heap)
     (execSgn cst K a h).map Res.int = execTmp h.abs (.sgn a) := by
   unfold execSgn
   by_cases hty : a.ty = .z
-  · simp only [hty, if_true, execSgnZ, execTmp, evalTmp_z _ a hty]
+  · simp only [hty, if_true, execSgnZ, execTmp, evalTmp_z h a hty hc]
     have B := bindZ_correct cst (evalZ_correct cst) a hty hwt K h hz
-    show _ = ((evalTmpZ (fun i => h (.v i)) a).map Val.z).map _
-    cases hr : evalTmpZ (fun i => h (.v i)) a with
+    show _ = ((evalTmpZ h.get a).map Val.z).map _
+    cases hr : evalTmpZ h.get a with
     | none => rw [hr] at B; simp [B]
     | some x =>
       rw [hr] at B
